@@ -10,6 +10,19 @@ CHECKS = {
     },
 }
 
+CHECKS["C01"] = {
+    "text": "Proof of the mechanism (Verus, real code extracted each run): GroupingContainer::{insert,get,begin_group,end_group} equal a stack-of-snapshots model for every history and depth (representation invariant proved preserved); update_save_stack: Local keeps the first overwritten value of the innermost level, Global purges the variable from EVERY level, other types' slots framed; command::Map opens/closes a group in BOTH its containers (control sequences and active characters) and routes inserts; prefix::Component::read_and_reset_global consumes the \\global flag exactly once and honours \\globaldefs.",
+    "design_ref": "DESIGN.md §5 C01",
+    "note": "Not verified: VM::run_impl dispatch and VM::begin_group/end_group glue, the font save stack, SaveStackMap::restore, the Vec backing container, the macro-generated map_getter closures (assumed to be field lenses). Trusted: vstd HashMap model, HashMap::get_mut delegation, consuming HashMap iteration modelled as take-any-until-empty.",
+    "technique": "contract-based deductive verification (Verus: data-structure invariant + abstract model view, loop invariants, closure lens contract)",
+}
+CHECKS["C20"] = {
+    "text": "Proof (Verus) for the scoped map only: after every local insert, global insert, begin-group and end-group the real GroupingContainer equals the stack-of-snapshots model (visible map + one snapshot per open group), with its representation invariant preserved, for all keys, values, histories and depths.",
+    "design_ref": "DESIGN.md §5 C20",
+    "note": "NOT decided here: iter_all/FromIterator replay, the string interner, tag uniqueness across threads (concurrency is outside both verifiers). Trusted: vstd HashMap model; HashMap::get_mut; consuming iteration modelled as take-any-until-empty; Clone identity on keys.",
+    "technique": "contract-based deductive verification (Verus, ghost view + representation invariant)",
+}
+
 NOT_APPLICABLE = {
     "C01": "not built yet",
     "C02": "not built yet",
